@@ -11,6 +11,7 @@
 (*                      the value equals the server's echo of c's argument *)
 (*   Changed(c)         the caller-visible result (ready, successful,      *)
 (*                      value, exception) changed after completion         *)
+(*   Wire(conn,c,tag)   the client started writing c's request to conn      *)
 (*   SrvRecv(conn,c,..) a complete request decoded at a server; c is the   *)
 (*                      call its unique argument belongs to (-1: none);    *)
 (*                      tag = mux tag (-1 on serial connections)           *)
@@ -75,13 +76,22 @@ ChangedCheck(c, t) ==
   ELSE IF On("C01") THEN "C01.once" ELSE "ok"
 ChangedUpd(c, t) == cclock' = t /\ UNCHANGED <<calls, done, wire, closed, openAtTO, discards>>
 
-\* a complete request arrived at a server
+\* a complete request arrived at a server (decoded there)
 SrvRecvCheck(conn, c, tag, argOk, methodOk, t) ==
   IF Mono(t) # "ok" THEN Mono(t)
   ELSE IF On("C02") /\ (c \notin DOMAIN calls \/ ~argOk \/ ~methodOk) THEN "C02.requestFaithful"
-  ELSE IF On("C12") /\ c \in DOMAIN done /\ done[c].kind = "timeout" THEN "C12.noLateBytes"
   ELSE "ok"
 SrvRecvUpd(conn, c, tag, argOk, methodOk, t) ==
+  /\ cclock' = t
+  /\ UNCHANGED <<calls, done, wire, closed, openAtTO, discards>>
+
+\* the client starts writing the request of call c to a connection (the moment its bytes count as
+\* written, even if the write call blocks and the peer sees them later)
+WireCheck(conn, c, tag, t) ==
+  IF Mono(t) # "ok" THEN Mono(t)
+  ELSE IF On("C12") /\ c \in DOMAIN done /\ done[c].kind = "timeout" THEN "C12.noLateBytes"
+  ELSE "ok"
+WireUpd(conn, c, tag, t) ==
   /\ cclock' = t
   /\ wire' = wire \cup {[c |-> c, conn |-> conn, tag |-> tag]}
   /\ UNCHANGED <<calls, done, closed, openAtTO, discards>>
